@@ -571,6 +571,9 @@ func judgeStored(st *stored, r getResult, who func([]byte) string) (string, stri
 	}
 	if !bytes.Equal(r.b.BaseCRL.Raw, st.base) {
 		owner := who(r.b.BaseCRL.Raw)
+		if st.delta != nil && bytes.Equal(r.b.BaseCRL.Raw, st.delta) {
+			owner = "delta-of-same-bundle"
+		}
 		return "C15:bytes:base:" + owner, fmt.Sprintf("base CRL bytes differ from the last stored bundle %v; returned %v (%s)", st.spec, r, owner)
 	}
 	if (r.b.DeltaCRL == nil) != (st.delta == nil) {
@@ -578,6 +581,9 @@ func judgeStored(st *stored, r getResult, who func([]byte) string) (string, stri
 	}
 	if st.delta != nil && !bytes.Equal(r.b.DeltaCRL.Raw, st.delta) {
 		owner := who(r.b.DeltaCRL.Raw)
+		if bytes.Equal(r.b.DeltaCRL.Raw, st.base) {
+			owner = "base-of-same-bundle"
+		}
 		return "C15:bytes:delta:" + owner, fmt.Sprintf("delta CRL bytes differ from the last stored bundle %v; returned %v (%s)", st.spec, r, owner)
 	}
 	// the parsed form must be the parse of those bytes
@@ -590,7 +596,7 @@ func judgeStored(st *stored, r getResult, who func([]byte) string) (string, stri
 
 // judgeCorrupted: the harness rewrote the entry file. Any error is acceptable; a bundle is
 // acceptable only if the file still decodes (own decoders), carries exactly the file's bytes and
-// is not clearly (> 1 h) past a next-update time. harnessErr reports disagreement between the
+// is not clearly (> 30 min) past a next-update time. harnessErr reports disagreement between the
 // harness's two decoders (never a property failure).
 func judgeCorrupted(s state, r getResult, now time.Time) (key, msg, harnessErr string, decodes bool) {
 	var (
@@ -625,11 +631,11 @@ func judgeCorrupted(s state, r getResult, now time.Time) (key, msg, harnessErr s
 	if !bytes.Equal(r.b.BaseCRL.Raw, ld.base) || (r.b.DeltaCRL == nil) != (ld.deltaL == nil) || (ld.deltaL != nil && !bytes.Equal(r.b.DeltaCRL.Raw, ld.delta)) {
 		return "C15:corrupt-decodes:bytes-differ", fmt.Sprintf("entry file corrupted by %q still decodes, but Get returned %v, not the file's bytes (base n=%v, delta=%v)", s.ckind, r, ld.baseL.Number, ld.deltaL != nil), "", decodes
 	}
-	limit := now.Add(-time.Hour)
+	limit := now.Add(-30 * time.Minute) // the generated "expired" classes are >= 1 h in the past
 	for _, l := range []*x509.RevocationList{ld.baseL, ld.deltaL} {
 		// a CRL without next-update (zero time) is outside the statement: both outcomes accepted
 		if l != nil && !l.NextUpdate.IsZero() && l.NextUpdate.Before(limit) {
-			return "C15:corrupt-decodes:expired-bundle-returned", fmt.Sprintf("entry file corrupted by %q decodes to a CRL with next-update %v (more than 1 h ago) but Get returned %v", s.ckind, l.NextUpdate, r), "", decodes
+			return "C15:corrupt-decodes:expired-bundle-returned", fmt.Sprintf("entry file corrupted by %q decodes to a CRL with next-update %v (more than 30 min ago) but Get returned %v", s.ckind, l.NextUpdate, r), "", decodes
 		}
 	}
 	return "", "", "", decodes
